@@ -59,6 +59,7 @@ type gwBed struct {
 	arr      *arrivals
 	table    []int // shard -> server index
 	cs       clientsets.ClientSets
+	infoGets map[string]int // User-Agent of a gateway -> server-info requests that have arrived
 }
 
 // deploy (re-)deploys the limiter fleet behind the same URLs with shard count N and a fresh random leader table: new real
@@ -149,7 +150,7 @@ func (b *gwBed) call(op, upstream string, seq int64) (arrived []int, err error, 
 }
 
 func gatewaySide(r *vkit.R, g *vkit.Rand) {
-	b := &gwBed{r: r, K: 3}
+	b := &gwBed{r: r, K: 3, infoGets: map[string]int{}}
 	b.arr = &arrivals{}
 	defer b.close()
 	for i := 0; i < b.K; i++ {
@@ -157,6 +158,11 @@ func gatewaySide(r *vkit.R, g *vkit.Rand) {
 		hv := &atomic.Value{}
 		b.arr.n = append(b.arr.n, map[string]int{})
 		ts.Config.Handler = http.HandlerFunc(func(w http.ResponseWriter, q *http.Request) {
+			if q.URL.Path == clientsets.ServerInfoUrl { // a sync of the gateway with this User-Agent has started
+				b.arr.mu.Lock()
+				b.infoGets[q.UserAgent()]++
+				b.arr.mu.Unlock()
+			}
 			if h, ok := hv.Load().(http.Handler); ok {
 				h.ServeHTTP(w, q)
 				return
@@ -195,11 +201,41 @@ func gatewaySide(r *vkit.R, g *vkit.Rand) {
 	defer cancel()
 	// two gateways (two instances of the real client sets, each with its own instance id) against the same fleet
 	gws := []clientsets.ClientSets{
-		clientsets.NewClientSetsWithRestConfig(ctx, strings.Join(b.urls, ","), "verif", &rest.Config{Host: b.urls[0], QPS: 10000, Burst: 10000}),
-		clientsets.NewClientSetsWithRestConfig(ctx, strings.Join(b.urls, ","), "verif-second", &rest.Config{Host: b.urls[1], QPS: 10000, Burst: 10000}),
+		clientsets.NewClientSetsWithRestConfig(ctx, strings.Join(b.urls, ","), "verif", &rest.Config{Host: b.urls[0], QPS: 10000, Burst: 10000, UserAgent: "verif-gateway-1"}),
+		clientsets.NewClientSetsWithRestConfig(ctx, strings.Join(b.urls, ","), "verif-second", &rest.Config{Host: b.urls[1], QPS: 10000, Burst: 10000, UserAgent: "verif-gateway-2"}),
 	}
 	b.cs = gws[0]
 	r.Set("gw_gateways", len(gws))
+	uas := []string{"verif-gateway-1", "verif-gateway-2"}
+	// syncedSince waits until EVERY gateway has certainly completed a sync that started after the call: a gateway syncs
+	// sequentially, so when its second server-info request since then has arrived, the sync of the first one is over - and that
+	// one was answered from the fleet's present state. Observed, not timed; it does not look at what is judged afterwards.
+	// While waiting, during() is called (probe traffic with the tolerance of a transition).
+	syncedSince := func(during func()) bool {
+		b.arr.mu.Lock()
+		c0 := map[string]int{}
+		for _, ua := range uas {
+			c0[ua] = b.infoGets[ua]
+		}
+		b.arr.mu.Unlock()
+		return vkit.WaitFor(40*time.Second, func() bool {
+			b.arr.mu.Lock()
+			all := true
+			for _, ua := range uas {
+				if b.infoGets[ua] < c0[ua]+2 {
+					all = false
+				}
+			}
+			b.arr.mu.Unlock()
+			if !all {
+				if during != nil {
+					during()
+				}
+				time.Sleep(50 * time.Millisecond)
+			}
+			return all
+		})
+	}
 	ok := vkit.WaitFor(20*time.Second, func() bool {
 		for _, gw := range gws {
 			if _, err := gw.ShardIDFor("x"); err != nil {
@@ -305,46 +341,32 @@ func gatewaySide(r *vkit.R, g *vkit.Rand) {
 		b.srvs[to].Elector.Gain(s)
 		b.table[s] = to
 		r.Count("gw_moves", 1)
-		// until the gateway has fetched the new table it knows the old leader: both are acceptable, nothing else is
-		movedFor := make([]bool, len(gws))
-		converged := vkit.WaitFor(20*time.Second, func() bool {
+		// until a gateway has fetched the new table it knows the old leader: both are acceptable, nothing else is. The strict
+		// judgement (round) starts once every gateway has completed a sync after the move - whether or not its requests have
+		// been seen at the new leader (a gateway that never follows the move is a violation, not a reason to wait longer).
+		converged := syncedSince(func() {
 			defer func() { b.cs = gws[0] }()
-			allMoved := true
-			for gi, gw := range gws {
-				if movedFor[gi] {
+			for _, gw := range gws {
+				b.cs = gw
+				seq++
+				arrived, err, rerr := b.call("allocate", probe, seq)
+				if rerr != nil {
 					continue
 				}
-				b.cs = gw
-				if !func() bool {
-					seq++
-					arrived, err, rerr := b.call("allocate", probe, seq)
-					if rerr != nil {
-						return false
+				r.Count("gw_requests_during_move", 1)
+				for _, a := range arrived {
+					if a != from && a != to {
+						r.Violation("C13/gateway/request-at-wrong-server/during-move", fmt.Sprintf("while shard %d moved from server %d to %d a request for upstream %q arrived at server %d", s, from, to, probe, a),
+							map[string]interface{}{"upstream": probe, "shard": s, "from": from, "to": to, "arrivedAt": arrived})
 					}
-					r.Count("gw_requests_during_move", 1)
-					for _, a := range arrived {
-						if a != from && a != to {
-							r.Violation("C13/gateway/request-at-wrong-server/during-move", fmt.Sprintf("while shard %d moved from server %d to %d a request for upstream %q arrived at server %d", s, from, to, probe, a),
-								map[string]interface{}{"upstream": probe, "shard": s, "from": from, "to": to, "arrivedAt": arrived})
-						}
-						if a == from && err != nil && strings.Contains(err.Error(), b.urls[to]) {
-							r.Count("gw_old_leader_refusal_names_new_leader", 1)
-						}
+					if a == from && err != nil && strings.Contains(err.Error(), b.urls[to]) {
+						r.Count("gw_old_leader_refusal_names_new_leader", 1)
 					}
-					return len(arrived) == 1 && arrived[0] == to
-				}() {
-					allMoved = false
-				} else {
-					movedFor[gi] = true
 				}
 			}
-			if !allMoved {
-				time.Sleep(50 * time.Millisecond)
-			}
-			return allMoved
 		})
 		if !converged {
-			r.Inconclusive("gateway side: requests did not reach the new leader within the watchdog after a leadership move")
+			r.Inconclusive("gateway side: the gateways did not sync twice within the watchdog after a leadership move")
 			return
 		}
 		r.Count("gw_moves_converged", 1)
@@ -390,68 +412,21 @@ func gatewaySide(r *vkit.R, g *vkit.Rand) {
 		} else {
 			r.Count("gw_shard_count_shrinks", 1)
 		}
-		// Convergence is observed, not timed: (a) a never-seen name whose shard differs between old and new N is mapped by
-		// the new N; (b) for every shard of the new deployment a never-seen name of that shard is mapped to it and its
-		// request arrives at the new leader. Until then requests may go by the old or the new table (not judged). A new
-		// probe name is used for every poll, so that nothing the gateway may remember about a name can hide the new N.
-		convFor := make([]bool, len(gws))
-		sawNewNFor := make([]bool, len(gws))
-		doneFor := make([][]bool, len(gws))
-		for gi := range doneFor {
-			doneFor[gi] = make([]bool, newN)
-		}
-		converged := vkit.WaitFor(20*time.Second, func() bool {
+		// Judged once every gateway has completed a sync that started after the re-deployment (all servers answer with the new
+		// shard count and table by then). Until then requests may go by the old or the new table (not judged); a few are made
+		// with never-seen names, to keep the transition window populated.
+		converged := syncedSince(func() {
 			defer func() { b.cs = gws[0] }()
-			every := true
-			for gi, gw := range gws {
-				if convFor[gi] {
-					continue
-				}
+			for _, gw := range gws {
 				b.cs = gw
-				sawNewN, done := sawNewNFor[gi], doneFor[gi]
-				if func() bool {
-					if !sawNewN {
-						n := fresh(func(x string) bool { return refShard(x, oldN) != refShard(x, newN) })
-						if sid, err := b.cs.ShardIDFor(n); err == nil && sid == refShard(n, newN) {
-							sawNewN = true
-						}
-					}
-					all := sawNewN
-					for s := 0; s < newN; s++ {
-						if done[s] {
-							continue
-						}
-						s := s
-						n := fresh(func(x string) bool { return refShard(x, newN) == s })
-						sid, err := b.cs.ShardIDFor(n)
-						if err != nil || sid != s {
-							all = false
-							continue
-						}
-						seq++
-						arrived, _, rerr := b.call("allocate", n, seq)
-						r.Count("gw_requests_during_shard_count_change", 1)
-						if rerr == nil && len(arrived) == 1 && arrived[0] == b.table[s] {
-							done[s] = true
-						} else {
-							all = false
-						}
-					}
-					sawNewNFor[gi] = sawNewN
-					return all
-				}() {
-					convFor[gi] = true
-				} else {
-					every = false
-				}
+				n := fresh(func(x string) bool { return true })
+				seq++
+				_, _, _ = b.call("allocate", n, seq)
+				r.Count("gw_requests_during_shard_count_change", 1)
 			}
-			if !every {
-				time.Sleep(50 * time.Millisecond)
-			}
-			return every
 		})
 		if !converged {
-			r.Inconclusive(fmt.Sprintf("gateway side: the gateway did not pick up the new shard count %d -> %d within the watchdog", oldN, newN))
+			r.Inconclusive(fmt.Sprintf("gateway side: the gateways did not sync twice within the watchdog after the shard count changed %d -> %d", oldN, newN))
 			return
 		}
 		r.Count("gw_shard_count_changes_converged", 1)
